@@ -43,7 +43,7 @@ HEIGHTS = [[10, 3], [7.26, 2.04], [7.25, 2.05], 'f32', None]
 TEXTS = [None, '', 'abc', '<&>"\'', ' lead', 'trail ', 'a  b', 'a\tb', 'a\nb', 'a\rb', 'a b', 'é', 'שלום', 'مرحبا',
          '\U0001F600\U00020000', ']]>', '�\x85 ']
 CONFS = [None, 0, 1, 0.12345, 0.9995, 1e-9]
-INDEXES = [None, 7]
+INDEXES = [None, 7, 0]
 RTYPES = [None, 'paragraph']
 RTEXTS = [None, '', 'abc', '<&>', ' lead ', 'a\nb']
 PIDS = ['page.jpg', 'dir/ä b&<.png']
